@@ -292,7 +292,48 @@ def scenario_fn(case):
         return run
     if k == "h3":
         return lambda: h3_scenario(case)
+    if k == "bulk":
+        return lambda: bulk_scenario(case)
     raise KeyError(k)
+
+
+def bulk_scenario(case):
+    """a long connection: megabytes in one direction over a lossless link (tens of thousands of qlog events)"""
+    from aioquic.quic.connection import QuicConnection
+    from vlib import endpoints as E
+
+    with E.pinned(("c20-bulk", case["kb"], case["sender"])):
+        big = dict(max_data=1 << 25, max_stream_data=1 << 25)
+        c = QuicConnection(configuration=E.client_config(**big))
+        c.connect(E.SERVER_ADDR, now=0.0)
+        s = QuicConnection(configuration=E.server_config(**big), original_destination_connection_id=c.original_destination_connection_id)
+        now = 0.0
+
+        def rnd():
+            nonlocal now
+            now += 0.001
+            a = E.transfer(c, s, now, E.CLIENT_ADDR)
+            now += 0.001
+            b = E.transfer(s, c, now, E.SERVER_ADDR)
+            for x in (c, s):
+                E.drain(x)
+                t = x.get_timer()
+                if t is not None and t <= now:
+                    x.handle_timer(now)
+            return a + b
+
+        for _ in range(6):
+            rnd()
+        w = c if case["sender"] == "client" else s
+        sid = w.get_next_available_stream_id()
+        w.send_stream_data(sid, bytes(case["kb"] * 1024), end_stream=True)
+        for _ in range(40000):
+            if not rnd():
+                break
+        c.close()
+        for _ in range(4):
+            rnd()
+    return None
 
 
 def h3_scenario(case):
@@ -515,6 +556,8 @@ def strategy(kind):
         special = st.lists(st.one_of(st.tuples(st.just("vn"), st.sampled_from(["current", "current+other", "other", "none", "unknown"]), st.just(True)), st.tuples(st.just("retry"), st.sampled_from([0, 16, 100]), st.booleans()), st.tuples(st.just("genuine"), st.integers(0, 3))), min_size=1, max_size=4)
         directed = special.map(lambda inputs: {"kind": "raw", "state": "client-connecting", "inputs": inputs})
         return st.one_of(C05.raw_strategy(), C05.raw_strategy(), directed).map(lambda c: {"kind": "raw", "case": c})
+    if kind == "bulk":
+        return st.fixed_dictionaries({"kind": st.just("bulk"), "kb": st.sampled_from([300, 4600, 4600, 9000]), "sender": st.sampled_from(["client", "server"])})
     if kind == "epochs":
         from props import C05
 
@@ -549,7 +592,7 @@ def replay(ctx, case):
 def plan(tier, seed):
     q = tier == "quick"
     t = []
-    for kind, nq, nt, shards in (("sim", 40, 4000, 5), ("frames", 60, 5000, 3), ("raw", 120, 8000, 2), ("tls", 300, 6000, 2), ("epochs", 60, 4000, 2), ("h3", 200, 15000, 2)):
+    for kind, nq, nt, shards in (("sim", 40, 4000, 5), ("frames", 60, 5000, 3), ("raw", 120, 8000, 2), ("tls", 300, 6000, 2), ("epochs", 60, 4000, 2), ("bulk", 2, 8, 2), ("h3", 200, 15000, 2)):
         for s in range(shards):
             t.append(("%s-%d" % (kind, s), {"kind": kind, "examples": nq if q else nt, "shard": s}))
     return t
